@@ -60,6 +60,7 @@ func main() {
 	errs := fl.Bool("errors", false, "with errors")
 	views := fl.Bool("views", false, "with result types and views")
 	nested := fl.Bool("nested-inline", false, "allow nested inline objects")
+	risky := fl.Bool("risky-names", false, "use one attribute name that generated code may collide with")
 	designFile := fl.String("design", "", "design JSON")
 	out := fl.String("out", "", "output directory (module root)")
 	example := fl.Bool("example", false, "also run the example generator")
@@ -68,7 +69,7 @@ func main() {
 	fl.Parse(os.Args[2:])
 	switch os.Args[1] {
 	case "make":
-		d := design.Generate(lp.NewRng(*seed*1000003+uint64(*index)), design.Opts{Index: *index, Security: *security, Errors: *errs, Views: *views, NestedInline: *nested})
+		d := design.Generate(lp.NewRng(*seed*1000003+uint64(*index)), design.Opts{Index: *index, Security: *security, Errors: *errs, Views: *views, NestedInline: *nested, Risky: *risky})
 		b, _ := json.Marshal(d)
 		fmt.Println(string(b))
 	case "run":
